@@ -59,6 +59,19 @@ class Builtins:
         o.fields["msg"] = msg
         return o
 
+    def b_bytearray(self, I, *a, **k):
+        """bytearray(), bytearray(bytes-like), bytearray(n): a mutable byte buffer (a host bytearray)"""
+        if k or len(a) > 1:
+            raise Unknown("bytearray() with an encoding")
+        if not a:
+            return bytearray()
+        x = a[0]
+        if isinstance(x, (bytes, bytearray)):
+            return bytearray(x)
+        if isinstance(x, int) and not isinstance(x, bool) and x >= 0:
+            return bytearray(x)
+        raise Unknown("bytearray() of a value that is not modelled as a buffer")
+
     def b_bytes(self, I, *a, **k):
         """bytes(), bytes(b"..."), bytes(n), bytes(iterable of small ints); anything else (buffers, encodings) is not modelled"""
         if k or len(a) > 1:
@@ -68,6 +81,8 @@ class Builtins:
         x = a[0]
         if isinstance(x, bytes):
             return x
+        if isinstance(x, bytearray):
+            return bytes(x)
         if isinstance(x, bool):
             raise Unknown("bytes(bool)")
         if isinstance(x, int):
@@ -98,6 +113,7 @@ class Builtins:
         mk("float", self.b_float)
         mk("str", self.b_str)
         mk("bytes", self.b_bytes)
+        mk("bytearray", self.b_bytearray)
         mk("list", self.b_list)
         mk("tuple", self.b_tuple)
         mk("set", self.b_set)
@@ -188,6 +204,8 @@ class Builtins:
             return T["str"]
         if isinstance(v, bytes):
             return T["bytes"]
+        if isinstance(v, bytearray):
+            return T["bytearray"]
         if isinstance(v, Seq):
             return T[v.kind]
         if isinstance(v, SetV):
@@ -226,7 +244,7 @@ class Builtins:
     # ------------------------------------------------------------------ names
     def _setup_names(self):
         N = self.names
-        for n in ("int", "bool", "float", "str", "bytes", "list", "tuple", "set", "frozenset", "dict", "object", "type",
+        for n in ("int", "bool", "float", "str", "bytes", "bytearray", "list", "tuple", "set", "frozenset", "dict", "object", "type",
                   "property", "classmethod", "staticmethod", "range"):
             N[n] = self.types[n]
         N["NotImplemented"] = self.NOTIMPL
@@ -491,6 +509,13 @@ class Builtins:
             return mkstr([a, b])
         if isinstance(a, bytes) and isinstance(b, bytes) and T is ast.Add:
             return a + b
+        if isinstance(a, bytearray) and isinstance(b, (bytes, bytearray)) and T is ast.Add:
+            if inplace:
+                a.extend(b)         # += on a bytearray changes the object every alias sees
+                return a
+            return a + b
+        if isinstance(a, bytes) and isinstance(b, bytearray) and T is ast.Add:
+            return a + bytes(b)
         if isinstance(a, bytes) and isinstance(b, int) and not isinstance(b, bool) and T is ast.Mult:
             return a * b
         if isinstance(a, int) and not isinstance(a, bool) and isinstance(b, bytes) and T is ast.Mult:
